@@ -61,7 +61,7 @@ func TestCheck(t *testing.T) {
 			"too few rejected reports / schema removals / reports to the second upstream")
 		r.Require(r.Counter("sys_burst_only_changes") >= 100 && r.Counter("sys_burst_only_lowered") >= 40 && r.Counter("sys_token_bucket_answers_after_burst_only_change") >= 300,
 			"too few changes of the global burst alone (qps unchanged) followed by reports")
-		r.Require(r.Counter("sys_histories_on_the_api_backed_store") >= 100 && r.Counter("sys_schemas_with_limit_near_int32_range") >= 40, "too few histories on the API-backed store / with very large limits")
+		r.Require(r.Counter("sys_histories_on_the_api_backed_store") >= 100 && r.Counter("sys_schemas_with_limit_near_int32_range") >= 40 && r.Counter("sys_schemas_with_limit_above_2_pow_30") >= 40 && r.Counter("sys_reports_with_limit_above_2_pow_30") >= 1500, "too few histories on the API-backed store / with very large limits")
 		r.Require(r.Counter("sys_histories_over_http") >= 100 && r.Counter("sys_reports_over_http") >= 3000, "too few reports delivered over HTTP through the real dispatcher")
 		r.Require(r.Counter("sys_report_errors") == 0, "reports were refused by the server (harness/server set-up problem)")
 	})
@@ -455,6 +455,7 @@ type history struct {
 	dead     bool // a violation was found: stop (later answers would only repeat it)
 	nontriv  bool
 
+	everBig    bool             // a schema of this history has (had) a global limit above 2^30: quotas held and their sums pass 2^31
 	front      *httptest.Server // reports go over HTTP through the server's real dispatcher
 	apiStore   bool             // the server keeps its conditions in the API-backed store
 	realIDs    bool             // identities as gateways really have them (ip:port, IPv6, dots, upper case, long, non-ASCII)
@@ -614,12 +615,19 @@ func (h *history) violate(f Finding, before record, s *schema, current int64, ex
 	if before.status[s.Name] > sumBefore {
 		sumBefore = before.status[s.Name]
 	}
-	h.r.Violation(Sig(h.scenario, f, sumBefore, int64(s.Limit), current),
+	sig := Sig(h.scenario, f, sumBefore, int64(s.Limit), current)
+	if h.everBig {
+		sig += "/int32-range" // limits in the upper half of the int32 range: sums of quotas pass 2^31
+	}
+	h.r.Violation(sig,
 		fmt.Sprintf("schema %s (%s, global limit %d): %s", s.Name, s.kind(), s.Limit, f.What), h.witness(extra))
 }
 
 func (h *history) classify(before record, s *schema, current int64) {
 	L := int64(s.Limit)
+	if L > 1<<30 {
+		h.r.Count("sys_reports_with_limit_above_2_pow_30", 1)
+	}
 	sb := before.sum[s.Name]
 	switch {
 	case sb > L:
@@ -690,9 +698,20 @@ func (h *history) consistency(after record, w *gw, rc reportRec, s *schema) {
 		h.dead = true
 		h.r.Violation("C07/"+h.sc("system")+"/record-differs-from-answer", fmt.Sprintf("schema %s: instance %s was answered %d but %d is on record", rc.Schema, w.id, rc.Answer, got), h.witness(nil))
 	}
-	if after.status[rc.Schema] != after.sum[rc.Schema] {
+	// The recorded sum is an int32 field of the API type. With a limit at the top of that range the quotas on record can sum
+	// to more than it can hold (limit fully allocated + the minimum quota 1 of further instances): then the only value that
+	// still says the truth that matters ("everything is allocated") is the largest int32 - never a wrapped, negative one.
+	want := after.sum[rc.Schema]
+	if want > math.MaxInt32 {
+		want = math.MaxInt32
+		h.r.Count("sys_recorded_sums_beyond_int32", 1)
+	}
+	if after.status[rc.Schema] != want {
 		h.dead = true
 		sig := "C07/" + h.sc("system") + "/recorded-sum-wrong"
+		if h.everBig {
+			sig += "/int32-range"
+		}
 		if h.lapsing {
 			sig += "/instance-lapsed-not-yet-reclaimed"
 		}
@@ -833,7 +852,11 @@ func (h *history) reportConcurrently(ws []*gw, racingLimitChange ...bool) {
 		bound += joins1[s.Name]
 		if after.sum[s.Name] > bound {
 			h.dead = true
-			h.r.Violation(fmt.Sprintf("C07/%s/overcommit/%s", h.sc("system-concurrent"), regime(before.sum[s.Name], L)),
+			csig := fmt.Sprintf("C07/%s/overcommit/%s", h.sc("system-concurrent"), regime(before.sum[s.Name], L))
+			if h.everBig {
+				csig += "/int32-range"
+			}
+			h.r.Violation(csig,
 				fmt.Sprintf("schema %s (global limit %d): %d concurrent reports took the sum on record from %d to %d; no serial order of reports that each respect the limit can exceed %d (max(sum before, limit) + %d new instances answered the minimum 1)",
 					s.Name, L, len(ws), before.sum[s.Name], after.sum[s.Name], bound, joins1[s.Name]), h.witness(nil))
 		}
@@ -877,11 +900,16 @@ func (h *history) changeLimit() {
 	if nl < 1 {
 		nl = 1
 	}
-	if nl > 10000000 {
-		nl = 10000000
+	if cap := int64(10000000); nl > cap && old <= cap {
+		nl = cap
+	} else if nl > math.MaxInt32 {
+		nl = math.MaxInt32 // a schema that starts in the int32 range may stay there
 	}
 	if nl == old {
 		nl = old + 1
+		if nl > math.MaxInt32 {
+			nl = old - 1
+		}
 	}
 	s.Limit = int32(nl)
 	if s.TB {
@@ -1161,9 +1189,13 @@ func system(r *vkit.R) {
 		for k := 0; k < ns; k++ {
 			s := schema{Name: fmt.Sprintf("s%d", k), TB: g.Bool()}
 			s.Limit = g.PickI32([]int32{1, 3, 10, 12, 50, 100, 500, 1000, 1000, 3000, 10000, 100000})
-			if g.Chance(0.06) { // limits of the order of the int32 range
-				s.Limit = g.PickI32([]int32{1 << 29, 500000000, 1000000000}) // sums incl. a claimed quota stay below 2^31 (the allocated sums are int32)
+			if g.Chance(0.08) { // limits over the whole int32 range (the property quantifies over every global limit)
+				s.Limit = g.PickI32([]int32{1 << 29, 1000000000, 1<<30 + 1, 2000000000, math.MaxInt32 - 1, math.MaxInt32})
 				r.Count("sys_schemas_with_limit_near_int32_range", 1)
+				if s.Limit > 1<<30 {
+					r.Count("sys_schemas_with_limit_above_2_pow_30", 1)
+					h.everBig = true
+				}
 			}
 			if s.TB {
 				s.Burst = clamp32(int64(s.Limit) * int64(g.Range(1, 2)))
